@@ -299,6 +299,52 @@ func fieldsSexp(t *TShape, w *WVal) []hx.Sexp {
 	return xs
 }
 
+// worldComp / worldFields print the resolver outcomes keyed by field *name* (as the schema's
+// resolvers are); the model finds the outcome of a collected key by the name of its first field.
+func worldComp(t *TShape, w *WVal) hx.Sexp {
+	if w == nil {
+		return hx.A("null")
+	}
+	switch w.Kind {
+	case "null":
+		return hx.A("null")
+	case "int":
+		return hx.N("s", hx.A(strconv.Itoa(w.N)))
+	case "badint":
+		return hx.N("bad", hx.A(MsgCoerce))
+	case "notlist":
+		return hx.N("bad", hx.A(MsgNotList))
+	case "list":
+		xs := []hx.Sexp{hx.B(t.ElemNN)}
+		for _, it := range w.Items {
+			xs = append(xs, worldComp(t.Elem, it))
+		}
+		return hx.N("list", xs...)
+	case "object":
+		return hx.N("wobj", append([]hx.Sexp{hx.A(t.TypeName)}, worldFields(t, w)...)...)
+	}
+	panic("bad world kind " + w.Kind)
+}
+
+func worldFields(t *TShape, w *WVal) []hx.Sexp {
+	var xs []hx.Sexp
+	for i, f := range t.Fields {
+		if f.Typename {
+			continue
+		}
+		wf := w.Fields[i]
+		e := hx.A("none")
+		comp := hx.A("null")
+		if wf.Err != "" {
+			e = hx.N("e", hx.A(wf.Err))
+		} else {
+			comp = worldComp(f.T, wf.V)
+		}
+		xs = append(xs, hx.N("w", hx.A(f.Name), hx.B(f.NN), hx.A(wf.Mode), e, comp))
+	}
+	return xs
+}
+
 // SettleMode says which serial executor the model is asked to run for mutations: true — the
 // executor repaired for F-11a (repo commit eabb795, settleSerialPromises: after wait the idle
 // handler is driven until every promise returned beneath the current root field has been received;
@@ -306,7 +352,9 @@ func fieldsSexp(t *TShape, w *WVal) []hx.Sexp {
 // the model for the negation witness `strict_serial_fails`). The oracles do not depend on it.
 var SettleMode = true
 
-// ModelLine is the request line for c02model / c11model.
+// ModelLine is the request line for c02model / c11model: the document's selection sets exactly as
+// printed in Document() (fragments inlined at their spreads, directives and type conditions
+// evaluated to flags), the resolver outcomes by field name, the schedule.
 func (c *Case) ModelLine() string {
 	AssignTypeNames(c.Shape)
 	kind := "query"
@@ -320,8 +368,20 @@ func (c *Case) ModelLine() string {
 	for _, m := range c.Schedule {
 		sched = append(sched, hx.A(strconv.FormatUint(m&(1<<62-1), 10)))
 	}
-	return hx.N("run", hx.A(kind), hx.L(fieldsSexp(c.Shape, c.World)...), hx.L(sched...)).String()
+	if PlanLines {
+		return hx.N("run", hx.A(kind), hx.L(fieldsSexp(c.Shape, c.World)...), hx.L(sched...)).String()
+	}
+	var sels []hx.Sexp
+	for _, n := range c.Selections() {
+		sels = append(sels, nodeSexp(n))
+	}
+	return hx.N("rund", hx.A(kind), hx.L(sels...), hx.A(c.Shape.TypeName), hx.L(worldFields(c.Shape, c.World)...), hx.L(sched...)).String()
 }
+
+// PlanLines makes ModelLine send the collected plan (`run`: the harness's own Shape, fused with
+// the world) instead of the document's selections (`rund`: the model runs collectFields and
+// mergeSelectionSets itself, lean/ApiFu/C02/Collect.lean, and fuses the result with the world).
+var PlanLines = false
 
 // ---- observables ------------------------------------------------------------------------------
 
